@@ -17,7 +17,7 @@ RULE = ('for every formula of the set, every way of naming a subset of its prope
         'sub-formulas share a name, i.e. are referenced twice; nested names), presented through add_sub_spec() and as one multi-assertion text, '
         'plus declared constants for thresholds and bounds; discrete online (plain and pastified): product BFS of the real modular monitor, every '
         'update() must equal the reference rho of the INLINED formula (delayed by the horizon after pastify); discrete/dense offline: all traces (discrete: a second time through ONE data set that the caller refills in place before each evaluate()) / '
-        'grid signals, values equal to the inlined reference; dense online: all schedules of probe signals; non-trivial = checked transition/evaluation of a specification with at least one stateful named sub-formula')
+        'grid signals, values equal to the inlined reference; dense online: all schedules of probe signals; constants also declared with Python numbers; interface-aware layer: modular presentations whose named (also arithmetic) sub-formulas are shared by several predicates, under 6 (semantics, input/output) configurations and the 4 monitor kinds, modular result = result of the inlined text on the same real monitor; non-trivial = checked transition/evaluation of a specification with at least one stateful named sub-formula')
 ASSUMPTIONS = ['reference of the inlined formula (vf/refsem.py, vf/dref.py); C02/C04 establish that the inlined monitor equals that reference',
                'formulas <= 2 operators plus selected 3-operator shapes; value alphabets V3/{-1,2}']
 
@@ -259,6 +259,8 @@ def shards(tier):
         for vi in range(n):
             out.append({'f': F.to_json(f), 'future': False, 'vi': vi, 'arith': True})
     out.append({'consts': True})
+    ni = len(ia_cases(tier))
+    out += [{'ia': list(range(i, min(i + 2, ni)))} for i in range(0, ni, 2)]
     n = len(const_unit_cases())
     out += [{'const_units': list(range(i, min(i + 12, n)))} for i in range(0, n, 12)]
     n = len(value_const_cases())
@@ -396,8 +398,72 @@ def online_ct(res, mod, f, subs, text, tier):
         res.digest(text, st.states, st.transitions)
 
 
+IA_CONFIGS = (('output_robustness', {'x': 'input', 'y': 'output'}), ('input_robustness', {'x': 'output', 'y': 'input'}),
+              ('input_vacuity', {'x': 'input', 'y': 'output'}), ('output_robustness', {'x': 'output', 'y': 'input'}),
+              ('input_robustness', {'x': 'input', 'y': 'output'}), ('output_vacuity', {'x': 'output', 'y': 'input'}))
+
+
+def ia_cases(tier):
+    """modular presentations (named sub-formulas, also arithmetic ones, shared by several predicates) to be monitored under the
+    interface-aware semantics: (inlined formula, sub-spec texts, top text)"""
+    from . import c06
+    return c06.modular_set(tier)
+
+
+def ia_outputs(kind, text, subs, vs, sem, io, w):
+    spec = impl.build(kind, text, vs, subspecs=tuple(subs), semantics=sem, io_types={v: t for v, t in io.items() if v in vs})
+    if kind.startswith('dt'):
+        return kinds.dt_values(kind, spec, w)
+    n = len(w[vs[0]])
+    out = kinds.ct_samples(kind, spec, kinds.grid_signal(w, 1.0))
+    return [dref.stepval(out, 0.5 * k) if out and 0.5 * k >= out[0][0] and 0.5 * k <= out[-1][0] else None for k in range(2 * n - 1)]
+
+
+def ia_check(case):
+    f = F.from_json(case['formula'])
+    sem, io = case['ia']
+    vs = case['vars']
+    a = impl.outcome(ia_outputs, case['kind'], case['spec'], case['subspecs'], vs, sem, io, case['trace'])
+    b = impl.outcome(ia_outputs, case['kind'], 'out = ' + F.pr(f), (), vs, sem, io, case['trace'])
+    if a[0] != b[0]:
+        return 'modular specification: %s %s; inlined specification: %s %s (semantics %s, %r)' % (a[0], str(a[1])[:150], b[0], str(b[1])[:150], sem, io)
+    if a[0] == 'ok':
+        av, bv = a[1], b[1]
+        if case['kind'].startswith('ct'):      # an instant is compared when both outputs cover it
+            av, bv = zip(*[(p, q) for p, q in zip(av, bv) if p is not None and q is not None]) if any(p is not None and q is not None for p, q in zip(av, bv)) else ((), ())
+        if not refsem.same_list(list(av), list(bv)):
+            return 'under %s with %r the modular specification returns %r, the inlined one %r' % (sem, io, list(av), list(bv))
+    return None
+
+
+def run_ia(res, mod, idx, tier):
+    f, subs, text = ia_cases(tier)[idx]
+    vs = sorted(F.fvars(f))
+    res.formulas += 1
+    plans = ['dt_off'] + (['dt_on'] if F.past_only(f) else []) + (['ct_off'] + (['ct_on'] if F.past_only(f) else []) if DENSE_OK(f) else [])
+    for ci, (sem, io) in enumerate(IA_CONFIGS):
+        for kind in plans:
+            for tr in F.traces(3, (-1.0, 0.0, 1.0) if len(vs) == 1 else (-1.0, 1.0), len(vs), minlen=2):
+                w = F.trace_dict(tr, vs)
+                case = {'group': 'ia', 'kind': kind, 'formula': F.to_json(f), 'spec': text, 'subspecs': list(subs), 'vars': vs, 'ia': [sem, io], 'trace': w}
+                res.evaluations += 1
+                msg = ia_check(case)
+                if msg:
+                    res.violation(mod, case, msg)
+                    res.outcomes['interface-aware: modular differs from inlined'] += 1
+                    break
+                res.outcomes['interface-aware: modular = inlined'] += 1
+                res.nontrivial += 1
+            res.digest(text, sem, kind)
+    res.flags['interface_aware_modular_specs'] += 1
+
+
 def run_shard(shard, tier, res):
     mod = sys.modules[__name__]
+    if 'ia' in shard:
+        for idx in shard['ia']:
+            run_ia(res, mod, idx, tier)
+        return
     if 'value_consts' in shard:
         for idx in shard['value_consts']:
             run_value_consts(res, mod, idx)
@@ -459,6 +525,9 @@ def replay(case):
         return [m] if m else []
     if case.get('group') == 'const_units':
         m = cu_check(case)[0]
+        return [m] if m else []
+    if case.get('group') == 'ia':
+        m = ia_check(case)
         return [m] if m else []
     f = F.from_json(case['formula'])
     kind = case.get('kind', 'dt_on')
